@@ -8,7 +8,11 @@
 //     margin-top, margin-bottom, top padding/border, bottom border/padding, height, content;
 //     plus a trailing sentinel line; two skeletons (every box empty / every box holds a line);
 //   - horizontal: full product of the width/margin/min/max/box-sizing/padding/border menu on
-//     one box inside several containers, with a child that probes its content box;
+//     one box inside several containers, with a child that probes its content box (these
+//     units come first); the margin menu holds a value (150px) that alone decides whether
+//     border + padding + width + non-auto margins exceed the containing width, so that the
+//     pre-test of §10.3.3 is enumerated below, at and above the containing width with no,
+//     one (either side) and two auto margins;
 //   - cross term: every low-level vertical case with one horizontal, percentage or box-sizing
 //     deviation on one box.
 //
